@@ -1,0 +1,10 @@
+//go:build !verif
+
+package verifhook
+
+// Count records one step at site. No-op without the verif build tag.
+func Count(site int) {}
+
+// Yield marks a point where a monitor may widen a scheduling window. No-op
+// without the verif build tag.
+func Yield(site int) {}
